@@ -45,7 +45,7 @@ int get_max_hash_size() {
     return SHA512_DIGEST_SIZE;
 }
 
-static char unknown[] = "Unknown(\0\0\0\0\0\0\0\0\0\0\0\0\0\0\0\0\0\0\0\0\0\0";
+static _Thread_local char unknown[] = "Unknown(\0\0\0\0\0\0\0\0\0\0\0\0\0\0\0\0\0\0\0\0\0\0";
 
 const static char *HASH_NAME[] = {
     "SHA-1",
